@@ -503,7 +503,10 @@ def run_sequence(version, cmds, chunk_seed, decorate_lines=True):
     from exabgp.reactor.api.command.group import clear_group
 
     rng = random.Random(chunk_seed)
+    from exabgp.rib import RIB
+
     clear_group(SERVICE)
+    RIB._cache.clear()  # RIB objects are shared by neighbor name across Configuration objects: every sequence is a fresh daemon
     rig = PipeRig(CONF, api_version=version, services=(SERVICE,))
     res = SeqResult()
     try:
